@@ -65,6 +65,8 @@ pub enum Fault {
     NoSpace,
     /// EACCES
     Denied,
+    /// EPIPE (the reader of a pipe went away)
+    BrokenPipe,
 }
 
 impl Fault {
@@ -75,6 +77,7 @@ impl Fault {
             Fault::Io => "eio".into(),
             Fault::NoSpace => "enospc".into(),
             Fault::Denied => "eacces".into(),
+            Fault::BrokenPipe => "epipe".into(),
         }
     }
     pub fn parse(s: &str) -> Option<Fault> {
@@ -86,12 +89,13 @@ impl Fault {
             "eio" => Fault::Io,
             "enospc" => Fault::NoSpace,
             "eacces" => Fault::Denied,
+            "epipe" => Fault::BrokenPipe,
             _ => return None,
         })
     }
     /// a fault after which the operation cannot be completed by retrying
     pub fn is_hard(&self) -> bool {
-        matches!(self, Fault::Io | Fault::NoSpace | Fault::Denied)
+        matches!(self, Fault::Io | Fault::NoSpace | Fault::Denied | Fault::BrokenPipe)
     }
     fn to_error(&self) -> io::Error {
         match self {
@@ -99,6 +103,7 @@ impl Fault {
             Fault::Io => io::Error::from_raw_os_error(5),
             Fault::NoSpace => io::Error::from_raw_os_error(28),
             Fault::Denied => io::Error::from_raw_os_error(13),
+            Fault::BrokenPipe => io::Error::from_raw_os_error(32),
             Fault::Short(_) => unreachable!(),
         }
     }
